@@ -31,6 +31,7 @@ type GenConfig struct {
 	// NoMovedSet: no array set-by-index once an element has been moved (finding P13 is judged by the
 	// properties it belongs to; elsewhere such a set becomes an insert at the same index)
 	NoMovedSet bool
+	Park       bool // allow Sq/Sw: the server holds a sync at one of its storage calls while others go on
 	Faults     bool // allow Sx: a storage call of the request fails (before or after taking effect), the client retries
 }
 
@@ -225,9 +226,17 @@ func Generate(r *rng.R, g GenConfig) *History {
 		case 1:
 			h.Steps = append(h.Steps, Step{Op: "S", C: c})
 		case 2:
-			h.Steps = append(h.Steps, Step{Op: "Sb", C: c})
+			if g.Park && r.Chance(1, 2) {
+				h.Steps = append(h.Steps, Step{Op: "Sq", C: c, Park: []string{"UpdateMinVersionVector", "UpdateClientInfoAfterPushPull", "FindChangeInfosBetweenServerSeqs"}[r.Intn(3)]})
+			} else {
+				h.Steps = append(h.Steps, Step{Op: "Sb", C: c})
+			}
 		case 3:
-			h.Steps = append(h.Steps, Step{Op: "Se", C: c})
+			if g.Park && r.Chance(1, 2) {
+				h.Steps = append(h.Steps, Step{Op: "Sw", C: c})
+			} else {
+				h.Steps = append(h.Steps, Step{Op: "Se", C: c})
+			}
 		case 4:
 			h.Steps = append(h.Steps, Step{Op: "Sp", C: c})
 		case 5:
